@@ -171,7 +171,12 @@ func verifH_C17_schema_nested() {
 	case 2:
 		src.AllOf = openapi2.SchemaRefs{child("a0."), child("a1.")}
 	case 3:
-		switch verifChoose("ap", 3) {
+		switch verifChoose("ap", 4) {
+		case 3:
+			// a map of maps: the reference sits at the second additionalProperties level
+			inner := &openapi3.Schema{Type: &openapi3.Types{"object"}}
+			inner.AdditionalProperties.Schema = &openapi3.SchemaRef{Ref: ref2}
+			src.AdditionalProperties.Schema = &openapi3.SchemaRef{Value: inner}
 		case 0:
 			b := verifNondetBool("apHas")
 			src.AdditionalProperties.Has = &b
@@ -215,6 +220,8 @@ func verifH_C17_schema_nested() {
 			verifAssert(ap.Has != nil && *ap.Has == *src.AdditionalProperties.Has, "C17 nested: additionalProperties boolean is preserved")
 		} else if src.AdditionalProperties.Schema.Ref != "" {
 			verifAssert(ap.Schema != nil && ap.Schema.Ref == ref3, "C17 nested: additionalProperties reference is rewritten to its v3 location")
+		} else if in2 := src.AdditionalProperties.Schema.Value.AdditionalProperties.Schema; in2 != nil {
+			verifAssert(ap.Schema != nil && ap.Schema.Value != nil && ap.Schema.Value.AdditionalProperties.Schema != nil && ap.Schema.Value.AdditionalProperties.Schema.Ref == ref3, "C17 nested: a reference two additionalProperties levels down is rewritten to its v3 location")
 		} else {
 			verifAssert(ap.Schema != nil && ap.Schema.Value != nil && ap.Schema.Value.MinLength == src.AdditionalProperties.Schema.Value.MinLength, "C17 nested: additionalProperties schema keeps its constraints")
 		}
@@ -255,6 +262,9 @@ func verifH_C17_schema_nested() {
 		ap := back.Value.AdditionalProperties
 		if src.AdditionalProperties.Schema != nil && src.AdditionalProperties.Schema.Ref != "" {
 			verifAssert(ap.Schema != nil && !strings.HasPrefix(ap.Schema.Ref, "#/components/"), "C17 nested back: every reference points at an OpenAPI 2 location (additionalProperties)")
+		}
+		if src.AdditionalProperties.Schema != nil && src.AdditionalProperties.Schema.Value != nil && src.AdditionalProperties.Schema.Value.AdditionalProperties.Schema != nil {
+			verifAssert(ap.Schema != nil && ap.Schema.Value != nil && ap.Schema.Value.AdditionalProperties.Schema != nil && ap.Schema.Value.AdditionalProperties.Schema.Ref == ref2, "C17 nested back: a reference two additionalProperties levels down points at its OpenAPI 2 location again")
 		}
 	case 4:
 		verifAssert(back.Value.Discriminator == src.Discriminator, "C17 nested back: discriminator survives the round trip")
